@@ -214,7 +214,28 @@ func buildMachO(thorough bool) func(env *Env, v Variant) ([]*Artifact, error) {
 			a.Semantic = append(a.Semantic, SemMut{Class: "append-after-container", Site: "after-signature:8-bytes", Data: d, Assert: false, Why: "bytes after __LINKEDIT are outside every segment; the loader never maps them (strict validation would refuse the file)"})
 		}
 		blob := s[ci.CMSOff : ci.CMSOff+ci.CMSLen]
-		a.Semantic = append(a.Semantic, cmsSemantics(env, v, blob, func(nb []byte) ([]byte, error) { return csEmbed(s, ci, nb) })...)
+		a.Semantic = append(a.Semantic, cmsSemantics(env, v, blob, func(nb []byte) ([]byte, error) {
+			if len(nb) <= ci.CMSLen {
+				return csEmbed(s, ci, nb)
+			}
+			// a longer CMS: the SuperBlob is laid out anew; it must still fit the
+			// signature slot (growing the slot would change the signed load commands)
+			sup := csWriteSuper(csWithCMS(s, ci, nb))
+			if len(sup) > sl {
+				return nil, errors.New("codesign: new CMS does not fit the signature slot")
+			}
+			return machoWithSuper(s, so, sl)(func([]byte) {}, sup)
+		})...)
+		// an extra CodeDirectory nobody signed, describing changed code (applealt.go)
+		var known [][]byte
+		for _, f := range []string{"slimfile.app/Info.plist", "slimfile.app/_CodeSignature/CodeResources"} {
+			if kb, err := readFile(relicxPackages(f)); err == nil {
+				known = append(known, kb)
+			}
+		}
+		if _, oov := outOfValidity[v.Key]; !oov {
+			a.Semantic = append(a.Semantic, csAlternates(a, s, ci, thorough, known, machoWithSuper(s, so, sl))...)
+		}
 		return []*Artifact{a}, nil
 	}
 }
@@ -298,6 +319,10 @@ func buildDMG(env *Env, v Variant) ([]*Artifact, error) {
 	}
 	blob := s[ci.CMSOff : ci.CMSOff+ci.CMSLen]
 	a.Semantic = append(a.Semantic, cmsSemantics(env, v, blob, func(nb []byte) ([]byte, error) {
+		if len(nb) > ci.CMSLen {
+			// a longer CMS: SuperBlob laid out anew, the trailer moves back
+			return dmgWithSuper(s, d)(func([]byte) {}, csWriteSuper(csWithCMS(s, ci, nb)))
+		}
 		out, err := csEmbed(s, ci, nb)
 		if err != nil {
 			return nil, err
@@ -306,5 +331,14 @@ func buildDMG(env *Env, v Variant) ([]*Artifact, error) {
 		be.PutUint64(out[d.koly+304:], uint64(d.sigLen-(ci.CMSLen-len(nb))))
 		return out, nil
 	})...)
+	// an extra CodeDirectory nobody signed, describing changed image data (applealt.go);
+	// the rep-specific slot binds the trailer with its signature length blinded
+	blinded := append([]byte{}, s[d.koly:]...)
+	for i := 304; i < 312; i++ {
+		blinded[i] = 0
+	}
+	if _, oov := outOfValidity[v.Key]; !oov {
+		a.Semantic = append(a.Semantic, csAlternates(a, s, ci, run.Thorough(), [][]byte{blinded}, dmgWithSuper(s, d))...)
+	}
 	return []*Artifact{a}, nil
 }
